@@ -122,7 +122,7 @@ impl<'a> G<'a> {
                 match c {
                     12 => {
                         // arithmetic with elements that are not Copy (operators, mul_add, Sum/Product, sum()/product())
-                        let mode = self.r.below(11);
+                        let mode = self.r.below(13);
                         let keep = self.r.below(2);
                         let extra = self.r.below(3);
                         let mut b = (keep << 8) | if mode == 7 || mode == 8 { extra } else { 0 };
@@ -132,7 +132,7 @@ impl<'a> G<'a> {
                             _ => self.n * self.w,
                         };
                         let mut f = 0;
-                        let mut gone = mode >= 9;
+                        let mut gone = mode == 9 || mode == 10;
                         if self.faulty && self.faults_left > 0 && self.r.below(16) < self.fault_p {
                             self.faults_left -= 1;
                             let which = if mode == 7 || mode == 8 { self.r.below(3) } else { 0 };
